@@ -364,7 +364,11 @@ def check_release(case, rec):
                     # the *fresh* gradient - never the gradient of the earlier pass
                     t = gv = None
                     for t in [t_ for t_ in run.env.values() if isinstance(t_, mg.Tensor) and t_ is not x and t_.base is x and t_.size > 0]:
-                        gv = t.grad
+                        try:
+                            gv = t.grad
+                        except Exception as e:  # noqa: BLE001
+                            return Mismatch("view_grad_shape", f"after a second backward through h{h}, reading the gradient of a kept "
+                                                               f"view of h{h} (shape {t.shape}) raised {fmt_exc(e)[:120]}")
                         if gv is None:
                             continue
                         if not np.shares_memory(gv, g1):
